@@ -128,6 +128,29 @@ class Grammar:
         return out
 
 
+class SlimGrammar(Grammar):
+    """few leaves (three constant value patterns, one induction-variable pattern inside loops, an effecting call), nesting depth 1:
+    affordable one node deeper than the full grammar"""
+
+    def leaves(self, loop_depth):
+        acc = self.accs[0]
+        out = [("L", acc, v) for v in (("x", "y"), ("y", "x"), ("y", "y"))]
+        if loop_depth >= 1:
+            out.append(("L", acc, ("i", "y")))
+        out.append(("CALL",))
+        return out
+
+
+_SLIM = {}
+
+
+def slim_programs(nodes, acc="acc1"):
+    if (nodes, acc) not in _SLIM:
+        g = SlimGrammar(accs=(acc,), calls=("CALL",), ifp=False, max_depth=1)
+        _SLIM[(nodes, acc)] = [p for p in g.seqs(nodes, 1, 0) if has_launch(p)]
+    return _SLIM[(nodes, acc)]
+
+
 def count_nodes(prog, kind):
     n = 0
     for s in prog:
